@@ -2,228 +2,36 @@
 // dispatchers and raw clients.  One case per input line, one result line per case.
 //
 // case := section { " | " section }
-//   svc <hexvendor> <hexproduct> <hexversion> <hexurl> <hexsvcdescr(ignored)>
-//   iface <hexname> <hexdescr>
-//   script <hexfullmethod> <step>* ret0|ret1
-//        step := r<0|1><policy>:<value>            Reply (continues flag) with parameters
-//              | e<policy>:<hexname>:<value>        ReplyError
-//              | s<policy>:<I|M|N|P>:<hexarg>       ReplyInterfaceNotFound / MethodNotFound / MethodNotImplemented / InvalidParameter
-//        policy := c (carry on) | e (return the error if the reply failed) | n (return nil if the reply failed)
-//   conn <half|abort|pause> <hexchunk,hexchunk,...>
+//
+//	svc <hexvendor> <hexproduct> <hexversion> <hexurl> <hexsvcdescr(ignored)>
+//	iface <hexname> <hexdescr>
+//	script <hexfullmethod> <step>* ret0|ret1
+//	     step := r<0|1><policy>:<value>            Reply (continues flag) with parameters
+//	           | e<policy>:<hexname>:<value>        ReplyError
+//	           | s<policy>:<I|M|N|P>:<hexarg>       ReplyInterfaceNotFound / MethodNotFound / MethodNotImplemented / InvalidParameter
+//	     policy := c (carry on) | e (return the error if the reply failed) | n (return nil if the reply failed)
+//	conn <half|abort|pause> <hexchunk,hexchunk,...>
+//
 // result := per connection "out=<hex> log=[entry;...] ovl=<0|1>" joined by " | ", then " || released=<0|1> returned=<0|1> err=<class>"
-//   entry := H<hexiface>.<hexmethod> <N|R<hexparams>> <more><oneway><upgrade> <attempt results o/x ...> ret<0|1>
+//
+//	entry := H<hexiface>.<hexmethod> <N|R<hexparams>> <more><oneway><upgrade> <attempt results o/x ...> ret<0|1>
 package main
 
 import (
 	"bufio"
 	"context"
-	"encoding/json"
-	"errors"
 	"fmt"
 	"io"
 	"net"
 	"os"
 	"strings"
 	"sync"
-	"sync/atomic"
 	"time"
 
 	"github.com/varlink/go/varlink"
+	"verif/harness/hs"
 	"verif/harness/vt"
 )
-
-type step struct {
-	kind   byte
-	cont   bool
-	policy byte
-	name   string
-	val    interface{}
-	std    byte
-	arg    string
-}
-
-type script struct {
-	steps []step
-	ret   bool
-}
-
-type connState struct {
-	mu      sync.Mutex
-	busy    int32
-	overlap bool
-	log     []string
-}
-
-type harness struct {
-	scripts map[string]*script
-	mu      sync.Mutex
-	conns   map[int]*connState
-}
-
-func (h *harness) conn(i int) *connState {
-	h.mu.Lock()
-	defer h.mu.Unlock()
-	c := h.conns[i]
-	if c == nil {
-		c = &connState{}
-		h.conns[i] = c
-	}
-	return c
-}
-
-type tagConn struct {
-	net.Conn
-	idx int
-}
-
-type tagListener struct {
-	net.Listener
-	n        int32
-	accepted chan int
-}
-
-func (l *tagListener) Accept() (net.Conn, error) {
-	c, err := l.Listener.Accept()
-	if err != nil {
-		return nil, err
-	}
-	i := int(atomic.AddInt32(&l.n, 1)) - 1
-	l.accepted <- i
-	return &tagConn{Conn: c, idx: i}, nil
-}
-
-type disp struct {
-	name, descr string
-	h           *harness
-}
-
-func (d *disp) VarlinkGetName() string        { return d.name }
-func (d *disp) VarlinkGetDescription() string { return d.descr }
-
-func tf(b bool) string {
-	if b {
-		return "T"
-	}
-	return "F"
-}
-
-func (d *disp) VarlinkDispatch(ctx context.Context, c varlink.Call, method string) error {
-	idx := -1
-	if g, ok := c.Conn.(varlink.GetNetConn); ok {
-		if t, ok := g.NetConn().(*tagConn); ok {
-			idx = t.idx
-		}
-	}
-	st := d.h.conn(idx)
-	if !atomic.CompareAndSwapInt32(&st.busy, 0, 1) {
-		st.mu.Lock()
-		st.overlap = true
-		st.mu.Unlock()
-	}
-	defer atomic.StoreInt32(&st.busy, 0)
-	var raw json.RawMessage
-	ps := "N"
-	if err := c.GetParameters(&raw); err == nil {
-		ps = "R" + vt.Hx(raw)
-	} else if err.Error() != "empty parameters" {
-		ps = "X"
-	}
-	entry := []string{"H" + vt.Hx([]byte(d.name)) + "." + vt.Hx([]byte(method)), ps, tf(c.WantsMore()) + tf(c.IsOneway()) + tf(c.WantsUpgrade())}
-	finish := func(ret bool) {
-		if ret {
-			entry = append(entry, "ret1")
-		} else {
-			entry = append(entry, "ret0")
-		}
-		st.mu.Lock()
-		st.log = append(st.log, strings.Join(entry, " "))
-		st.mu.Unlock()
-	}
-	sc := d.h.scripts[d.name+"."+method]
-	if sc == nil {
-		finish(false)
-		return nil
-	}
-	for _, s := range sc.steps {
-		var err error
-		switch s.kind {
-		case 'r':
-			c.Continues = s.cont
-			err = c.Reply(ctx, s.val)
-		case 'e':
-			err = c.ReplyError(ctx, s.name, s.val)
-		case 's':
-			switch s.std {
-			case 'I':
-				err = c.ReplyInterfaceNotFound(ctx, s.arg)
-			case 'M':
-				err = c.ReplyMethodNotFound(ctx, s.arg)
-			case 'N':
-				err = c.ReplyMethodNotImplemented(ctx, s.arg)
-			case 'P':
-				err = c.ReplyInvalidParameter(ctx, s.arg)
-			}
-		}
-		if err == nil {
-			entry = append(entry, "o")
-		} else {
-			entry = append(entry, "x")
-			if s.policy == 'e' {
-				finish(true)
-				return err
-			}
-			if s.policy == 'n' {
-				finish(false)
-				return nil
-			}
-		}
-	}
-	finish(sc.ret)
-	if sc.ret {
-		return errors.New("scripted handler error")
-	}
-	return nil
-}
-
-func parseValue(s string) interface{} {
-	if s == "-" {
-		return nil
-	}
-	return vt.Parse(s)
-}
-
-func parseScript(f []string) *script {
-	sc := &script{}
-	for _, t := range f {
-		if t == "ret0" {
-			sc.ret = false
-			continue
-		}
-		if t == "ret1" {
-			sc.ret = true
-			continue
-		}
-		st := step{kind: t[0]}
-		switch t[0] {
-		case 'r':
-			st.cont = t[1] == '1'
-			st.policy = t[2]
-			st.val = parseValue(t[4:])
-		case 'e':
-			st.policy = t[1]
-			rest := t[3:]
-			i := strings.IndexByte(rest, ':')
-			st.name = string(vt.Unhex(rest[:i]))
-			st.val = parseValue(rest[i+1:])
-		case 's':
-			st.policy = t[1]
-			st.std = t[3]
-			st.arg = string(vt.Unhex(t[5:]))
-		}
-		sc.steps = append(sc.steps, st)
-	}
-	return sc
-}
 
 type connSpec struct {
 	mode   string
@@ -236,10 +44,10 @@ func runCase(dir string, caseNo int, line string) (res string) {
 			res = "PANIC " + fmt.Sprint(r)
 		}
 	}()
-	h := &harness{scripts: map[string]*script{}, conns: map[int]*connState{}}
+	h := &hs.Harness{Scripts: map[string]*hs.Script{}, Conns: map[int]*hs.ConnState{}}
 	var svc *varlink.Service
 	var conns []connSpec
-	var ifaces []*disp
+	var ifaces []*hs.Disp
 	for _, sec := range strings.Split(line, " | ") {
 		f := strings.Fields(sec)
 		if len(f) == 0 {
@@ -249,9 +57,9 @@ func runCase(dir string, caseNo int, line string) (res string) {
 		case "svc":
 			svc, _ = varlink.NewService(string(vt.Unhex(f[1])), string(vt.Unhex(f[2])), string(vt.Unhex(f[3])), string(vt.Unhex(f[4])))
 		case "iface":
-			ifaces = append(ifaces, &disp{name: string(vt.Unhex(f[1])), descr: string(vt.Unhex(f[2])), h: h})
+			ifaces = append(ifaces, &hs.Disp{Name: string(vt.Unhex(f[1])), Descr: string(vt.Unhex(f[2])), H: h})
 		case "script":
-			h.scripts[string(vt.Unhex(f[1]))] = parseScript(f[2:])
+			h.Scripts[string(vt.Unhex(f[1]))] = hs.ParseScript(f[2:])
 		case "conn":
 			cs := connSpec{mode: f[1]}
 			if len(f) > 2 && f[2] != "-" {
@@ -275,7 +83,7 @@ func runCase(dir string, caseNo int, line string) (res string) {
 	if err != nil {
 		return "X listen " + err.Error()
 	}
-	tl := &tagListener{Listener: inner, accepted: make(chan int, len(conns)+1)}
+	tl := &hs.TagListener{Listener: inner, Accepted: make(chan int, len(conns)+1)}
 	svc.VerifSetListener(tl)
 	done := make(chan error, 1)
 	ctx := context.Background()
@@ -288,7 +96,7 @@ func runCase(dir string, caseNo int, line string) (res string) {
 		}
 		clients[i] = c
 		select {
-		case <-tl.accepted:
+		case <-tl.Accepted:
 		case <-time.After(5 * time.Second):
 			return "X accept timeout"
 		}
@@ -351,14 +159,14 @@ func runCase(dir string, caseNo int, line string) (res string) {
 	os.Remove(path)
 	var parts []string
 	for i := range conns {
-		st := h.conn(i)
-		st.mu.Lock()
+		st := h.Conn(i)
+		st.Mu.Lock()
 		ov := "0"
-		if st.overlap {
+		if st.Overlap {
 			ov = "1"
 		}
-		parts = append(parts, fmt.Sprintf("out=%s log=[%s] ovl=%s", outs[i], strings.Join(st.log, ";"), ov))
-		st.mu.Unlock()
+		parts = append(parts, fmt.Sprintf("out=%s log=[%s] ovl=%s", outs[i], strings.Join(st.Log, ";"), ov))
+		st.Mu.Unlock()
 	}
 	return strings.Join(parts, " | ") + " || reg=" + strings.Join(regres, "") + " released=" + released + " returned=" + returned + " err=" + errc
 }
